@@ -164,7 +164,32 @@ def h_queue_message(ex, recv, args, kwargs, st, fr, node):
     return [Outcome('normal', st, fresh_opaque('queued'))]
 
 
+def h_time(ex, recv, args, kwargs, st, fr, node):
+    src = ast.unparse(node.func)
+    r = fresh_opaque('now')
+    if src == 'time.time':
+        st.ghost['now'] = r
+    return [Outcome('normal', st, r)]
+
+
+def _cmp(n):
+    return z3.Function('v_cmp_' + n, Val, Val, smt.B)
+
+
 def h_verify_binder(ex, recv, args, kwargs, st, fr, node):
+    # C13: a ticket-derived PSK is used only if the ticket has not expired:  not (creation_time + ticketLifetime < now)
+    tk, now = st.env.get('ticket'), st.ghost.get('now')
+    if tk is not None:
+        if now is None:
+            OB(ex, st, 'psk:ticket-age-checked-against-settings.ticketLifetime-before-the-ticket-is-used', z3.Not(v_truthy(T(tk))))
+        else:
+            total = z3.Function('v_binop_Add', Val, Val, Val)(attr('creation_time', tk), attr('ticketLifetime', st.env['settings']))
+            n = T(now)
+            expired = _cmp('lt')(total, n)
+            order = z3.And(_cmp('gt')(n, total) == expired, _cmp('le')(n, total) == z3.Not(expired),
+                           _cmp('ge')(total, n) == z3.Not(expired))
+            OB(ex, st, 'psk:ticket-age-checked-against-settings.ticketLifetime-before-the-ticket-is-used',
+               z3.Implies(order, z3.Or(z3.Not(v_truthy(T(tk))), z3.Not(expired))))
     ok, bad = st, st.fork()
     ok.ghost['binder_pos'] = args[2] if len(args) > 2 else None
     ok.ghost['binder_secret'] = args[3] if len(args) > 3 else None
@@ -275,7 +300,7 @@ def on_compare(ex, node, l, r, st, fr):
 
 SPEC = M2Spec(hooks={'_sendError': h_sendError, '_getMsg': h_getMsg, 'copy': h_copy, 'digest': h_digest,
                      'secureHMAC': h_secureHMAC, '_queue_flush': h_queue_flush, '_queue_message': h_queue_message,
-                     'verify_binder': h_verify_binder, 'ver_func': h_ver_func, 'calcVerifyBytes': h_calcVerifyBytes,
+                     'verify_binder': h_verify_binder, 'time': h_time, 'ver_func': h_ver_func, 'calcVerifyBytes': h_calcVerifyBytes,
                      'getEndEntityPublicKey': h_getkey, '_sigHashesToList': h_sigHashesToList, 'create': h_create},
               pure={'getExtension', 'toRepr', 'getHash', 'getPadding', 'isinstance', 'len', 'HKDF_expand_label',
                     'derive_secret', 'decode', '_getPRFParams', 'getattr', 'getNumCerts'})
@@ -292,3 +317,4 @@ m2task('_serverTLS13Handshake/client-auth-psk-and-flight-order', ('C05', 'C06', 
        doc='TLS 1.3 server: client chain recorded only when proved by CertificateVerify (key of that chain, signature of the '
            'received message, transcript snapshot before it, accepted scheme) or taken from a binder-verified ticket; PSK '
            'announced only after verify_binder succeeded for it; client flight order [Certificate [CertificateVerify]] Finished')
+REG.xchecks.append({'prop': 'C13', 'module': 'specs.resumption13', 'name': 'tls13_expired_ticket', 'function': TC + '_serverTLS13Handshake'})
